@@ -162,7 +162,7 @@ theorem flushed_fields (sh : Shared D L) :
 theorem tail_not_absorb (sh : Shared D L) (st : St) (h : sh.last ≠ .absorb) :
     tail env sh st = .ok ({ shared := flushed env sh, state := st }, sh.last) := by
   unfold tail
-  have : (st == .entering && sh.last == .absorb) = false := by
+  have : ((st == .entering || st == .enteringSyllable) && sh.last == .absorb) = false := by
     cases hl : sh.last <;> simp_all
   simp only [this, Bool.false_eq_true, if_false]
   show Outcome.ok (({ shared := flushed env sh, state := st } : Editor D L), (flushed env sh).last) = _
@@ -174,7 +174,7 @@ theorem tail_within (sh : Shared D L) (h : sh.last = .absorb)
     (hlen : sh.com.len ≤ sh.options.autoCommitThreshold) :
     tail env sh .entering = .ok ({ shared := flushed env sh, state := .entering }, .absorb) := by
   unfold tail
-  have h1 : ((St.entering : St) == .entering && sh.last == .absorb) = true := by rw [h]; rfl
+  have h1 : (((St.entering : St) == .entering || (St.entering : St) == .enteringSyllable) && sh.last == .absorb) = true := by rw [h]; rfl
   have h2 : Shared.tryAutoCommit env sh = .ok sh := by
     unfold Shared.tryAutoCommit; dsimp only; rw [if_pos hlen]
   simp only [h1, if_true, h2]
@@ -774,7 +774,7 @@ theorem eng_key_inserts_linked (hE : C01.EnvOK env G) {e : Editor D L} (hi : C01
     subst hst
     obtain ⟨hst', hbl, _⟩ := tail_spec env h2
     obtain ⟨sh2, hac, hcom, hopt2, _, hlast2, _⟩ := tail_com env h2
-    have hcond : ((St.entering : St) == .entering && sh.last == .absorb) = true := by rw [hlast]; rfl
+    have hcond : (((St.entering : St) == .entering || (St.entering : St) == .enteringSyllable) && sh.last == .absorb) = true := by rw [hlast]; rfl
     rw [if_pos hcond] at hac
     have htl := Link.tilingAt_of_shInv hE (Link.dispatch_shInv hE hi ev hd)
     obtain ⟨hbd, ho2, n, hsym, hcr⟩ := tryAutoCommit_bound_at env htl hac
